@@ -127,8 +127,13 @@ def uname(unit):
     return "%s/%s" % (unit[0], unit[1])
 
 
+RUNS_PER_UNIT = {}
+
+
 def execute(env, unit, np, layout, cases, sync=False, timeout=WATCHDOG):
     coll, algo, _calls, _variant = unit
+    with _caselog_lock:
+        RUNS_PER_UNIT[uname(unit)] = RUNS_PER_UNIT.get(uname(unit), 0) + 1
     cmd = [env.smpirun, "-np", str(np), "-hostfile", env.hostfile(layout, np), "-platform", env.plat,
            "--cfg=smpi/host-speed:1Gf", "--cfg=smpi/simulate-computation:no", "--log=root.thres:error"]
     if algo not in ("fixed", "nbc"):
@@ -452,6 +457,22 @@ class Runner:
     def job(self, unit, np, layout, cases):
         ctx = self.ctx
         groups, order = {}, []
+        # cases for which the algorithm states an unmet precondition of its own (REFUSALS, scope "case"): one of each kind is
+        # run alone to see the refusal; if it is indeed refused the others are not run (each would stop a whole run)
+        expected, rest = {}, []
+        for c in cases:
+            r = G.expected_refusal(unit[0], unit[1], np, layout, c) if F.assign(uname(unit), np, layout, c) is None else None
+            if r is None:
+                rest.append(c)
+            else:
+                expected.setdefault(r, []).append(c)
+        for r, cs in sorted(expected.items()):
+            st = self.single(unit, np, layout, cs[0], set())
+            if st == "refused":
+                ctx.count("cases_refused", len(cs) - 1)
+            else:
+                rest += cs[1:]
+        cases = rest
         for c in cases:
             f = F.assign(uname(unit), np, layout, c)
             if f not in groups:
@@ -576,6 +597,7 @@ def run(ctx):
                                "jobs_of_this_run": len(jobs), "share_of_the_matrix": round(len(jobs) / max(1, total), 4)}
         if runner.leftover:
             ctx.extra["units_leaving_communications_behind"] = sorted(runner.leftover)
+        ctx.extra["smpirun_executions_top_units"] = dict(sorted(RUNS_PER_UNIT.items(), key=lambda kv: -kv[1])[:12])
         if AUDIT:
             ctx.extra["findings_audit"] = runner.audit
     finally:
